@@ -169,6 +169,10 @@ impl Run {
         for part in obs.split(" | ").next().unwrap_or("").split("; ") {
             let w: Vec<&str> = part.split(' ').collect();
             match w.as_slice() {
+                ["emit", _, "Terminated", _, st, r] => {
+                    let class = if r.starts_with('r') && r[1..].chars().all(|c| c.is_ascii_digit()) { "user" } else { r };
+                    self.stats.bump(&format!("obs.emit.Terminated.{st}.{class}"))
+                }
                 ["emit", _, kind, ..] => self.stats.bump(&format!("obs.emit.{kind}")),
                 ["cancelled", _, cb] => self.stats.bump(&format!("obs.cancelled.{cb}")),
                 ["ret", r] if matches!(op, Op::Spawn(..) | Op::PollSpawn(_)) => {
@@ -296,7 +300,7 @@ impl Run {
                     cand.push((wild * k, Op::Kill(a)));
                     let r = if rng.chance(1, 2) { Some(format!("r{}", self.fresh())) } else { None };
                     cand.push(((wild + 1) * k / 2, Op::Stop(a, r)));
-                    cand.push((wild * k / 2, Op::Drain(a)));
+                    cand.push(((wild + 1) * k / 2, Op::Drain(a)));
                 }
             }
             cand.retain(|c| c.0 > 0);
@@ -361,7 +365,7 @@ impl Run {
             } else {
                 &["poll", "abort"]
             };
-            for fill in 0u32..16 {
+            for fill in 0u32..32 {
                 for next in nexts {
                     self.exec(Op::Case(id)).await;
                     id += 1;
@@ -407,6 +411,9 @@ impl Run {
                     // fill (lowest priority first, so arrival order is the reverse of priority)
                     if fill & 1 != 0 {
                         self.exec(Op::Send(1, 200)).await;
+                    }
+                    if fill & 16 != 0 {
+                        self.exec(Op::Drain(1)).await;
                     }
                     if fill & 2 != 0 {
                         self.exec(Op::Kill(2)).await;
